@@ -82,6 +82,7 @@ type c20pool struct {
 	opt  *optimizers.SGD // one optimizer object shared by all goroutines, each stepping only its private tensors
 	pair [2]int          // two same-shape untracked pool tensors used in both operand orders
 	res  []int           // pool tensors that are results of earlier operations
+	idx  []tensor.Range  // ONE full-length index value ({0,0} = whole dimension, then a window) that all goroutines pass to Slice / Patch, read-only
 	D, O int
 }
 
@@ -211,6 +212,7 @@ func c20BuildPool(r *rand.Rand) (*c20pool, error) {
 	p.acts = append(p.acts, activations.NewRelu(), activations.NewLeakyRelu(nil), activations.NewSigmoid(), activations.NewTanh(), sm)
 	p.mse = losses.NewMSE()
 	p.opt = optimizers.NewSGD(&optimizers.SGDConfig{LearningRate: 0.25})
+	p.idx = []tensor.Range{{From: 0, To: 0}, {From: 1, To: 3}}
 	return p, nil
 }
 
@@ -287,6 +289,8 @@ func c20GenJobs(r *rand.Rand, p *c20pool, n int) []c20job {
 					break
 				}
 			}
+		case q == 6 && r.Intn(4) == 0:
+			jobs = append(jobs, c20job{kind: "shared-index", seed: r.Int63(), a: p.pair[0]})
 		case q == 6 && r.Intn(3) == 0:
 			jobs = append(jobs, c20job{kind: "opposite-order", seed: r.Int63(), a: p.pair[0], b: p.pair[1]})
 		case q == 6 && r.Intn(2) == 0:
@@ -395,6 +399,28 @@ func c20Run(p *c20pool, jobs []c20job, inject *rand.Rand, start time.Time, rec *
 					return out, fmt.Errorf("%s on shared result %d of shape %v: %w", in.Op, j.a, shape, e)
 				}
 				if e := hashBits(&out, res); e != nil {
+					return out, e
+				}
+			}
+		case "shared-index": // one []Range value shared by all goroutines (nobody writes to it) indexes shared and private tensors of different sizes
+			r := rand.New(rand.NewSource(j.seed))
+			rows := 1 + r.Intn(4)
+			priv := rt.MustLeaf(RandT(r, []int{rows, 3}, -1, 1), false)
+			for _, t := range []tensor.Tensor{p.ts[j.a], priv} {
+				var sl, pa tensor.Tensor
+				if e := span("Slice/Patch(shared index value)", []int{j.a}, func() (err error) {
+					if sl, err = t.Slice(p.idx); err != nil {
+						return
+					}
+					pa, err = t.Patch(p.idx, sl)
+					return
+				}); e != nil {
+					return out, e
+				}
+				if e := hashBits(&out, sl); e != nil {
+					return out, e
+				}
+				if e := hashBits(&out, pa); e != nil {
 					return out, e
 				}
 			}
@@ -675,6 +701,7 @@ func c20Run(p *c20pool, jobs []c20job, inject *rand.Rand, start time.Time, rec *
 // tensor at once: whatever bounded resource the library might hold while building a result (slots, pooled buffers) is
 // over-subscribed; every goroutine must still get the sequential result and nobody may block for good.
 func c20Storm(k *fw.K, G int) {
+	c20FirstUse(k)
 	k.Case = map[string]any{"scenario": "reducer / layer storm on one shared tensor", "goroutines": G}
 	k.Key("storm/G%d", G)
 	pool, err := c20BuildPool(k.Rng)
@@ -733,6 +760,51 @@ func c20Storm(k *fw.K, G int) {
 	k.Count("results_compared_with_sequential_run", int64(G*len(want)))
 }
 
+// c20FirstUse runs ONCE per child process, before the process has touched the library in any other way: 16 goroutines released
+// together make the very first constructor calls with explicit configs. Whatever the library initialises lazily on first use
+// is initialised under contention here; every call must succeed and the race detector watches.
+var c20Once sync.Once
+
+func c20FirstUse(k *fw.K) {
+	c20Once.Do(func() {
+		const G = 16
+		errs := make([]error, G)
+		gate := make(chan struct{})
+		var wg sync.WaitGroup
+		for g := 0; g < G; g++ {
+			wg.Add(1)
+			go func(g int) {
+				defer wg.Done()
+				conf := &tensor.Config{Device: tensor.CPU, GradTrack: g%2 == 0}
+				<-gate
+				var err error
+				switch g % 5 {
+				case 0:
+					_, err = tensor.RandN([]int{2, 3}, 0, 1, conf)
+				case 1:
+					_, err = tensor.RandU([]int{3}, 0, 1, conf)
+				case 2:
+					_, err = tensor.Full([]int{2}, 1.5, conf)
+				case 3:
+					_, err = tensor.TensorOf([]float64{1, 2}, conf)
+				default:
+					_, err = tensor.Eye(2, conf)
+				}
+				errs[g] = err
+			}(g)
+		}
+		close(gate)
+		wg.Wait()
+		k.Count("processes_whose_first_library_calls_were_concurrent", 1)
+		for g, e := range errs {
+			if e != nil {
+				k.Failf("the first library calls of the process, made by %d goroutines at once: call %d failed: %v", G, g, e)
+				return
+			}
+		}
+	})
+}
+
 func runC20(c *fw.Ctx) {
 	c20Canary()
 	for _, G := range []int{128, 256} {
@@ -749,6 +821,7 @@ func runC20(c *fw.Ctx) {
 		i := i
 		c.Case(func(k *fw.K) {
 			G, P := Gs[i%len(Gs)], Ps[(i/len(Gs))%len(Ps)]
+			c20FirstUse(k)
 			k.Case = map[string]any{"goroutines": G, "GOMAXPROCS": P, "run": i}
 			k.Key("G%d/P%d/run%d", G, P, i)
 			old := runtime.GOMAXPROCS(P)
